@@ -367,6 +367,15 @@ def find_witness(prop, v, repo, log):
         return kani_replay(v, log)
     oid = v.get('obligation', '')
     fn = v.get('function', '')
+    if prop == 'C11':
+        build(log)
+        p = subprocess.run([BIN, 'mapops'], capture_output=True, text=True, timeout=600)
+        o = p.stdout.strip()
+        loc = [l for l in p.stderr.splitlines() if 'panicked at' in l][:1]
+        if o.startswith('OK'):
+            return {'witness': None, 'search': 'SmallMap scenarios (sizes 0..40 across the index threshold; remove by key/index at every position, clear+reuse, pop, reverse, retain, sort) vs a list model: ' + o}
+        return {'witness': {'real_library': o + (' ' + loc[0] if loc else ''), 'oracle': 'list-of-pairs model'},
+                'search': 'SmallMap scenarios (sizes 0..40 across the index threshold) vs a list model'}
     if prop == 'C06':
         r = parser_grid_search(log)
         r['search'] = 'a OP1 b OP2 c for all 21x21 operator pairs as statement, call argument and under prefix not: acceptance and grouping vs CPython ast'
